@@ -17,12 +17,13 @@ type PtrV struct {
 }
 
 type SliceV struct {
-	Obj  *Obj // nil => nil slice
-	Off  int
-	Len  int
-	Cap  int
-	Elem types.Type
-	Abs  *AbsBytes // abstract byte string (symbolic length); Obj may be nil then
+	Obj    *Obj // nil => nil slice
+	Off    int
+	Len    int
+	Cap    int
+	Elem   types.Type
+	Abs    *AbsBytes // abstract byte string (symbolic length); Obj may be nil then
+	SymLen *Term     // "any other length" class: symbolic length, contents never accessible
 }
 
 type AggV struct {
